@@ -30,7 +30,13 @@ func check(c Case) (class, what string, o obs, err error) {
 	if k.nalts == 0 {
 		return "", "", obs{}, fmt.Errorf("no alternatives: the operation declares no requirements")
 	}
-	key := envKey{decl: k.decl, mode: k.mode, reg: k.reg, undef: k.undef, az: k.az != azAbsent}
+	key := envKey{decl: k.decl, mode: k.mode, reg: k.reg, undef: k.undef, az: k.az != azAbsent, wiring: k.wiring}
+	if k.wiring == wServe && k.level != lvlHandler {
+		return "", "", obs{}, fmt.Errorf("wiring %s gives no Context: handler level only", wiringName[k.wiring])
+	}
+	if k.level == lvlAuthenticators && k.az != azAbsent {
+		return "", "", obs{}, fmt.Errorf("level %s involves no authorizer", lvlName[k.level])
+	}
 	e := buildEnv(key, []structure{structureOf(k)})
 	o = runCase(e, 0, k)
 	if class = judge(k, o); class != "" {
@@ -41,14 +47,24 @@ func check(c Case) (class, what string, o obs, err error) {
 
 // runCase executes one case on a built environment whose operation op declares the structure of k.
 func runCase(e *env, op int, k kase) obs {
-	base, path, cnt := e.bases[op], opPath(op), op
+	path, cnt := opPath(op), op
 	if k.decl == declNone {
-		base, path, cnt = e.noneBase, "/none", len(e.structs)
+		path, cnt = "/none", len(e.structs)
 	}
-	if k.level == lvlAuthorize {
+	if e.ctx == nil { // middleware.Serve: nothing but the handler in hand
+		return e.execHandler(cnt, path, k, k.decl == declNone)
+	}
+	base := e.bases[op]
+	if k.decl == declNone {
+		base = e.noneBase
+	}
+	if k.level != lvlHandler {
 		auths, owned := ordered(base.Authenticators, k)
 		if k.decl == declNone {
 			auths, owned = base.Authenticators, true
+		}
+		if k.level == lvlAuthenticators {
+			return e.execAuthenticators(base, auths, owned, parseRequest(rawRequest(path, k)))
 		}
 		return e.execAuthorize(base, auths, owned, parseRequest(rawRequest(path, k)))
 	}
@@ -115,8 +131,8 @@ func vectors(mode uint8) [][nS]uint8 {
 	for a := 0; a < nOut; a++ {
 		for b := 0; b < nOut; b++ {
 			for c := 0; c < nOut; c++ {
-				if mode == modeReal && (a == oOKS || b == oOKS) {
-					continue // API-key and basic credentials carry no scopes
+				if (a == oOKS && !scopesReach(mode, 0)) || (b == oOKS && !scopesReach(mode, 1)) {
+					continue // API-key and basic credentials carry no scopes; HttpAuthenticator does not pass them on
 				}
 				out = append(out, [nS]uint8{uint8(a), uint8(b), uint8(c)})
 			}
@@ -215,6 +231,73 @@ func plan(thorough bool) []envPlan {
 			}
 		}
 	}
+	// S1: RouteAuthenticators.Authenticate called directly on the route (exported; no authorizer)
+	for _, rc := range regCfgs(false) {
+		key := envKey{decl: declOp, mode: modeRaw, reg: rc.reg}
+		m := 2
+		if thorough || rc.reg == 7 {
+			m = 3
+		}
+		add(key, s3, job{level: lvlAuthenticators, maxAlts: m, azs: []uint8{azAbsent}})
+	}
+	// S2: the other ways an application wires API, context and handler (moment of RegisterAuth / RegisterAuthorizer
+	// relative to NewContext and handler construction; Serve; the UI handler constructors; the typed flavour)
+	surfAz := []uint8{azAbsent, azDenyP1, azDenyNil}
+	// quick drives the surface variants through the handler chain with single-alternative structures only (the
+	// Authorize level, which is cheap, keeps lists of <=2); middleware.Serve has no other level and keeps lists of <=2
+	hAlts := 2
+	if !thorough {
+		hAlts = 1
+	}
+	for _, w := range []uint8{wLateRoutesHandler, wLateRapiDoc, wEarlySwaggerUI, wServe, wTyped, wTypedRouter} {
+		regs := []uint8{7}
+		if thorough {
+			regs = []uint8{7, 6, 5}
+		}
+		for _, reg := range regs {
+			for _, az := range []bool{false, true} {
+				key := envKey{decl: declOp, mode: modeRaw, reg: reg, az: az, wiring: w}
+				if w != wServe {
+					add(key, s2, job{level: lvlAuthorize, maxAlts: 2, azs: surfAz})
+				}
+				if w == wServe {
+					add(key, s2, job{level: lvlHandler, maxAlts: 2, azs: surfAz, rests: fine})
+				} else {
+					add(key, s2, job{level: lvlHandler, maxAlts: hAlts, azs: surfAz, rests: fine})
+				}
+				if (w == wTyped || w == wServe) && reg == 7 {
+					add(key, s2, job{level: lvlHandler, maxAlts: hAlts, azs: []uint8{azAbsent, azDeny}, rests: []uint8{restCType, restParam, restAccept}})
+				}
+			}
+		}
+	}
+	// late registration also with the structure declared globally (single alternatives)
+	for _, st := range s3[:countStructs(1)] {
+		for _, az := range []bool{false, true} {
+			key := envKey{decl: declGlobal, mode: modeRaw, reg: 7, az: az, wiring: wLateRoutesHandler}
+			add(key, []structure{st}, job{level: lvlHandler, maxAlts: 2, azs: surfAz, rests: fine})
+		}
+	}
+	// security.Authorized() as the registered authorizer
+	{
+		key := envKey{decl: declOp, mode: modeRaw, reg: 7, az: true, wiring: wAuthorized}
+		add(key, s2, job{level: lvlAuthorize, maxAlts: 2, azs: []uint8{azAccept}})
+		add(key, s2, job{level: lvlHandler, maxAlts: 2, azs: []uint8{azAccept}, rests: fine})
+	}
+	// S3: every other authenticator constructor of package security
+	for _, mode := range []uint8{modeRealPlain, modeRealAlt, modeRealAltPlain, modeWrapped} {
+		regs := []uint8{7}
+		if thorough {
+			regs = []uint8{7, 6, 5, 3}
+		}
+		for _, reg := range regs {
+			for _, az := range []bool{false, true} {
+				key := envKey{decl: declOp, mode: mode, reg: reg, az: az}
+				add(key, s2, job{level: lvlAuthorize, maxAlts: 2, azs: []uint8{azAbsent, azDeny, azDenyP1, azDenyNil}})
+				add(key, s2, job{level: lvlHandler, maxAlts: hAlts, azs: surfAz, rests: fine})
+			}
+		}
+	}
 	// an environment declares only as many structures as its jobs need
 	for i := range plans {
 		if plans[i].key.decl == declOp || plans[i].key.decl == declOpOverAnon {
@@ -286,7 +369,7 @@ type okey struct {
 }
 
 func (l okey) String() string {
-	pre := lvlName[l.level][:1] + ":"
+	pre := [nLvl]string{"a", "h", "r"}[l.level] + ":"
 	if l.none == 1 {
 		pre += "no-requirement:"
 	}
@@ -369,11 +452,11 @@ func main() {
 	debug.SetGCPercent(300)
 	thorough := r.Thorough()
 	plans := plan(thorough)
-	vecs := [2][][nS]uint8{vectors(modeRaw), vectors(modeReal)}
-
-	// requests for the Authorize level: one per (mode, vector, authorizer kind), shared read-only
-	var authReq [2][][nAz]*http.Request
-	for mode := uint8(0); mode < 2; mode++ {
+	var vecs [nMode][][nS]uint8
+	// requests for the levels below the handler: one per (mode, vector, authorizer kind), shared read-only
+	var authReq [nMode][][nAz]*http.Request
+	for mode := uint8(0); mode < nMode; mode++ {
+		vecs[mode] = vectors(mode)
 		authReq[mode] = make([][nAz]*http.Request, len(vecs[mode]))
 		for vi, v := range vecs[mode] {
 			for az := uint8(0); az < nAz; az++ {
@@ -438,11 +521,11 @@ func main() {
 			var differs []bool
 			for _, ord := range orders(st) {
 				ti := 0
-				if abort.Load() || (p.key.decl == declNone && nOrders > 0) {
-					break // (an operation that declares nothing has no orders to vary)
+				if abort.Load() || ((p.key.decl == declNone || e.ctx == nil) && nOrders > 0) {
+					break // (an operation that declares nothing has no orders to vary; without a Context the order is the tree's own)
 				}
 				nOrders++
-				k := kase{decl: p.key.decl, mode: p.key.mode, reg: p.key.reg, undef: p.key.undef, nalts: st.n, alts: ord}
+				k := kase{decl: p.key.decl, mode: p.key.mode, reg: p.key.reg, undef: p.key.undef, nalts: st.n, alts: ord, wiring: p.key.wiring}
 				var auths middleware.RouteAuthenticators
 				authOwned, handlerOwned, haveAuth, haveHandler := false, false, false, false
 				for _, j := range p.jobs {
@@ -450,7 +533,10 @@ func main() {
 						continue
 					}
 					k.level = j.level
-					if j.level == lvlAuthorize && !haveAuth {
+					if j.level != lvlHandler && e.ctx == nil {
+						continue
+					}
+					if j.level != lvlHandler && !haveAuth {
 						if k.decl == declNone {
 							auths, authOwned = e.noneBase.Authenticators, true
 						} else {
@@ -460,7 +546,9 @@ func main() {
 					}
 					if j.level == lvlHandler && !haveHandler {
 						handlerOwned = true
-						if k.decl != declNone {
+						if e.ctx == nil {
+							handlerOwned = k.decl == declNone
+						} else if k.decl != declNone {
 							handlerOwned = e.setOrder(it.op, k)
 						}
 						haveHandler = true
@@ -473,18 +561,22 @@ func main() {
 							}
 							k.az = az
 							rests := j.rests
-							if j.level == lvlAuthorize {
+							if j.level != lvlHandler {
 								rests = fine
 							}
 							for _, rest := range rests {
 								k.rest = rest
 								var o obs
-								if j.level == lvlAuthorize {
+								if j.level != lvlHandler {
 									base := e.bases[it.op]
 									if k.decl == declNone {
 										base = e.noneBase
 									}
-									o = e.execAuthorize(base, auths, authOwned, authReq[k.mode][vi][az])
+									if j.level == lvlAuthenticators {
+										o = e.execAuthenticators(base, auths, authOwned, authReq[k.mode][vi][az])
+									} else {
+										o = e.execAuthorize(base, auths, authOwned, authReq[k.mode][vi][az])
+									}
 								} else {
 									path, cnt := opPath(it.op), it.op
 									if k.decl == declNone {
@@ -597,7 +689,7 @@ func main() {
 					nst++
 				}
 			}
-			axes[fmt.Sprintf("declared=%s authenticators=%s level=%s structures-per-environment=%d (lists of <=%d) authorizers=%v rest=%v", declName[p.key.decl], modeName[p.key.mode], lvlName[j.level], nst, j.maxAlts, azs, rests)]++
+			axes[fmt.Sprintf("wiring=%s declared=%s authenticators=%s level=%s structures-per-environment=%d (lists of <=%d) authorizers=%v rest=%v", wiringName[p.key.wiring], declName[p.key.decl], modeName[p.key.mode], lvlName[j.level], nst, j.maxAlts, azs, rests)]++
 		}
 	}
 	r.Set("sweeps_environments", axes)
@@ -617,6 +709,9 @@ func main() {
 		"registered_configurations": len(regCfgs(thorough)),
 		"rest_of_request":           restName,
 		"declarations":              declName,
+		"levels":                    lvlName,
+		"authenticator_flavours":    modeName,
+		"wirings":                   wiringName,
 	})
 	r.Assume("reference model props/c02/model.go (Appendix A.1) is the reading of the property text",
 		"scheme k at list position i requires the scopes {k.i} (k1) or {k.i, r} (k2, k3), so every alternative has distinguishable scopes",
